@@ -85,7 +85,18 @@ void INCLUDEStatement::loadSource(Parser& p, Context& ctx)
 
   if (_exp == nullptr)
     throw ParseError(EXC_PARSE_INV_EXPRESSION);
-  Value& val = _exp->value(ctx);
+  Value * path = nullptr;
+  try
+  {
+    path = &(_exp->value(ctx));
+  }
+  catch (RuntimeError& re)
+  {
+    /* the path is evaluated while compiling: the text is rejected */
+    std::string msg(re.what());
+    throw ParseError(EXC_PARSE_OTHER_S, msg.c_str());
+  }
+  Value& val = *path;
   if (val.isNull())
     throw ParseError(EXC_PARSE_INV_EXPRESSION);
   FILE * progfile = ::fopen(val.literal()->c_str(), "r");
